@@ -163,6 +163,8 @@ def check_graph_case(case):
                     out.append(("fires:value-stored", {"node": i, "value": list(r.value)}, {"node": i, "value": G.canon_value(broker[c])}))
             if r.status == "failed" and c in broker:
                 out.append(("fires:failed-has-no-value", {"node": i}, {"node": i, "value": G.canon_value(broker[c])}))
+        f = R[targets[0]]
+        case["_outcome"] = "%s:%s:args=%s" % (desc["nodes"][targets[0]]["t"], f.status, len(f.args) if f.args is not None else "-")
         return out
     finally:
         g.cleanup()
@@ -415,7 +417,8 @@ def _run(res, case):
     except Exception as ex:
         import traceback
         vio = [("harness:raises", "no exception", traceback.format_exc()[-800:])]
-    res.case(nontrivial=_nontrivial(case), outcome="g:%s" % ",".join(sorted(set(v[0] for v in vio))),
+    oc = case.pop("_outcome", "?")
+    res.case(nontrivial=_nontrivial(case), outcome="g:%s|%s" % (",".join(sorted(set(v[0] for v in vio))), oc),
              sample=case if (res.evals % 5000 == 17) else None)
     for v in vio:
         res.violation(v[0], case, v[1], v[2])
